@@ -1096,7 +1096,10 @@ class Grid(object):
         if align_corners:
             spacing = (self.extent() - self.spacing()) / (size - 1)
             grid._spacing = torch.where(self._size.gt(0), spacing, self._spacing)
-            assert torch.allclose(grid.origin(), self.origin())
+            # Absolute tolerance relative to magnitude of the terms the origin is computed from,
+            # otherwise rounding errors alone trigger this assertion for an origin close to zero
+            atol = 1e-5 * max(self._center.abs().max().item(), self.extent().max().item())
+            assert torch.allclose(grid.origin(), self.origin(), atol=atol)
         else:
             spacing = self.extent() / size
             grid._spacing = torch.where(self._size.gt(0), spacing, self._spacing)
